@@ -53,7 +53,7 @@ impl OutputFormatter {
 
     /// PEP 440 numbers are stored as u32; a larger version number would silently be dropped
     /// or moved into the local segment, so refuse to render it
-    fn check_pep440_range(zerv_object: &Zerv) -> Result<(), ZervError> {
+    pub(crate) fn check_pep440_range(zerv_object: &Zerv) -> Result<(), ZervError> {
         let vars = &zerv_object.vars;
         let fields = [
             ("major", vars.major),
